@@ -691,6 +691,11 @@ impl<'a> Run<'a> {
 trait Sim: Obj {
     fn step1(&mut self) -> Result<(), String>;
     fn finished(&self) -> bool;
+    /// the derived totals the crate reports for a run (read through its public getters; these go
+    /// through the lazily rebuilt `n_res_equipped` cache)
+    fn totals(&mut self) -> Vec<f64> {
+        vec![]
+    }
 }
 impl Sim for LocomotiveSimulation {
     fn step1(&mut self) -> Result<(), String> {
@@ -706,6 +711,9 @@ impl Sim for ConsistSimulation {
     }
     fn finished(&self) -> bool {
         self.i >= self.power_trace.len()
+    }
+    fn totals(&mut self) -> Vec<f64> {
+        vec![self.loco_con.get_energy_fuel().value, self.loco_con.get_net_energy_res().value, self.loco_con.n_res_equipped() as f64]
     }
 }
 impl Sim for SetSpeedTrainSim {
@@ -724,6 +732,10 @@ impl Sim for SpeedLimitTrainSim {
         // the loop condition of `walk_internal`
         let end = self.path_tpc.offset_end();
         !(self.state.offset < end - 1000.0 * uc::FT || (self.state.offset < end && self.state.speed.value != 0.0))
+    }
+    fn totals(&mut self) -> Vec<f64> {
+        vec![self.get_energy_fuel(false).value, self.get_net_energy_res(true).value, self.get_kilometers(false), self.get_megagram_kilometers(true),
+             self.get_res_kilometers(false), self.get_non_res_kilometers(false)]
     }
 }
 
@@ -766,6 +778,12 @@ impl<'a> Run<'a> {
             }
             outcome.push(o[0]);
             if o[0] != 0 {
+                // which error ended the run (distribution only)
+                let mut again = snaps.last().unwrap().clone();
+                if let Some(Err(e)) = guard(|| again.step1()) {
+                    let key: String = e.lines().filter(|l| !l.trim().is_empty()).last().unwrap_or("").chars().filter(|c| c.is_ascii_alphanumeric() || *c == ' ' || *c == '_').take(50).collect();
+                    self.ctx.count(&format!("serde.sim.{}.error.{}", S::NAME, key.trim().replace(' ', "_")));
+                }
                 break;
             }
             snaps.push(cur.clone());
@@ -798,6 +816,19 @@ impl<'a> Run<'a> {
                 if f == Fmt::Json {
                     self.max_rel_json_resume = self.max_rel_json_resume.max(c.max_rel);
                     if c.n_inexact == 0 { self.ctx.count("serde.resume.json.bit_exact"); } else { self.ctx.count("serde.resume.json.rounding_level"); }
+                }
+                // the totals the crate reports
+                let (ta, tb) = (y.clone().totals(), fin.clone().totals());
+                let tot_ok = ta.len() == tb.len() && ta.iter().zip(&tb).all(|(p, q)| match tol {
+                    Tol::Bits => p.to_bits() == q.to_bits() || (p.is_nan() && q.is_nan()),
+                    _ => p == q || (p - q).abs() <= 1e-9 * p.abs().max(q.abs()) + 1e-12 * scale,
+                });
+                if !tb.is_empty() {
+                    self.ctx.checked(P, &format!("resume_same_totals_{fname}"));
+                    if !tot_ok {
+                        self.fail(&format!("resume_same_totals_{fname}"), &format!("{case}@{k}"),
+                            format!("format={fname} type={} checkpoint={k}: totals of the resumed run {:?} differ from the uninterrupted run {:?}", S::NAME, ta, tb), x, f);
+                    }
                 }
                 if let Err(d) = r {
                     self.fail(&format!("resume_same_trajectory_{fname}"), &format!("{case}@{k}"),
@@ -1013,7 +1044,13 @@ fn gen_speed_limit(r: &mut Rng, finish: bool) -> Option<SpeedLimitTrainSim> {
     let mut sim = SpeedLimitTrainSim::valid();
     sim.train_id = (*r.pick(&["", "train 7", "Zug-ä/1"])).to_string();
     sim.path_tpc = PathTpc::new(ro.tp);
-    sim.loco_con = gen_train_consist(r);
+    sim.loco_con = if r.chance(0.6) {
+        let n = r.usize(2, 4);
+        let locos: Vec<Locomotive> = (0..n).map(|_| if r.chance(0.6) { Locomotive::default() } else { Locomotive::default_battery_electric_loco() }).collect();
+        Consist::new(locos, None, if r.chance(0.5) { PowerDistributionControlType::Proportional(Proportional) } else { PowerDistributionControlType::RESGreedy(RESGreedy) })
+    } else {
+        gen_train_consist(r)
+    };
     sim.state = st0;
     sim.fric_brake = FricBrake::new(uc::N * (mass_static * *r.pick(&[0.3, 0.6, 1.0])), uc::S * *r.pick(&[0.0, 30.0, 60.0]), uc::R * 0.5, None, None);
     sim.set_save_interval(*r.pick(&[Some(1), Some(1), Some(2), None]));
@@ -1088,15 +1125,10 @@ pub fn run(ctx: &mut Ctx, r: &mut Rng, tier: &str) {
     run.check("default.bel", "default", &Locomotive::default_battery_electric_loco(), true);
     run.check("default.hybrid", "default", &Locomotive::default_hybrid_electric_loco(), true);
     {
+        // as the crate's own `build_dummy_loco` (pyo3-only) does it
         let mut d = Locomotive::default();
         d.loco_type = PowertrainType::DummyLoco(DummyLoco::default());
-        if std::env::var("C17_DEBUG").is_ok() {
-            let y = d.to_yaml().unwrap();
-            eprintln!("{}", &y[..y.len().min(600)]);
-            eprintln!("{:?}", Locomotive::from_yaml(&y).map(|l| l.loco_type.to_string()).map_err(|e| format!("{e:#}")));
-            let l2: Locomotive = serde_yaml::from_str(&y).unwrap();
-            eprintln!("raw load type: {}", l2.loco_type.to_string());
-        }
+        let _ = altrios_core::traits::Mass::set_mass(&mut d, None, altrios_core::traits::MassSideEffect::None);
         run.check("default.dummy", "default", &d, true);
     }
     run.check("default", "default", &Consist::default(), true);
